@@ -94,7 +94,17 @@ fn case_direct(t: &mut Tape, ctx: &CaseCtx) -> CaseResult {
     let first = t.choose(POOL);
     let keys: Vec<(u64, usize)> = ids.iter().enumerate().map(|(i, id)| (*id, (first + i) % POOL)).collect();
     let napps = 1 + t.choose(3);
-    let apps: Vec<App> = (0..napps).map(|i| App::builder().id(format!("{}{i}", header_safe(t, 6))).version([1 + t.choose(9) as u32, t.u32_biased()]).build()).collect();
+    let apps: Vec<App> = (0..napps)
+        .map(|i| {
+            // request contents: cohorts, fingerprints and 0-8 extra fields per app (the serialised body must be byte-for-byte
+            // what the metadata retains, whatever the contents)
+            let extras: std::collections::HashMap<String, String> = (0..t.choose(9)).map(|k| (format!("extra-{k}-{}", t.ident(3)), t.text(6))).collect();
+            let mut a = App::builder().id(format!("{}{i}", header_safe(t, 6))).version([1 + t.choose(9) as u32, t.u32_biased()]).extra_fields(extras).build();
+            a.cohort.hint = t.option(|t| t.text(5));
+            a.fingerprint = t.option(|t| t.ident(5));
+            a
+        })
+        .collect();
     let kind = t.choose(3);
     let params = RequestParams { source: if t.flag() { InstallSource::OnDemand } else { InstallSource::ScheduledTask }, ..Default::default() };
     let case = json!({"service_url": url.text, "keys(id,pool)": keys, "apps": napps, "kind": (["update check", "ping", "event"][kind])});
